@@ -10,5 +10,6 @@ CONSTANTS
   Questions <- Q0
   AllowEnd = FALSE
   MaxRequery = 1
+  FixCommitState = TRUE
 INVARIANTS TypeOK InOrderNoDup SlotBound RequeryEndsEncrypted
 CHECK_DEADLOCK FALSE
